@@ -1,0 +1,7 @@
+//go:build !verif
+
+package cmd
+
+import "github.com/Masterminds/semver"
+
+func verifResolvedVersions(resolved map[string]*semver.Version) {}
